@@ -37,8 +37,11 @@ static void dump_image(AsmContext &ctx, FILE *out, size_t maxbytes)
       if (total + len > maxbytes) { len = maxbytes - total; truncated = true; }
       if (len > 0)
       {
+        // read the bytes the way every output writer does: ascending addresses through read8()
+        std::vector<uint8_t> bytes;
+        for (size_t k = 0; k < len; k++) { bytes.push_back(ctx.memory.read8(p->address + s + k)); }
         fprintf(out, "%s[%u,\"%s\"]", first ? "" : ",", p->address + s,
-          hex_bytes(p->bin + s, len).c_str());
+          hex_bytes(bytes.data(), len).c_str());
         first = false;
       }
       total += (n - s);
